@@ -44,7 +44,9 @@ CASES = PROXY_CASES + [(a, l, ph) for a in CLIENT_APIS + SERVER_APIS for l in LO
          # 'the call is already blocked when the loss happens' is meaningful there
          if not (a in ("start_client", "start_server") and (ph != "blocked-first"))]
 RULE = ("Enumerated by seed index: API (%d) x loss kind %r x phase %r (%d cases); per run channel timeout from {None, 0, 60, "
-        "3600}, latency 0-50 ms, schedule; line-level pre-emption in channel.py and auth_handler.py in a third of the runs."
+        "3600}, latency 0-50 ms, schedule; line-level pre-emption in channel.py and auth_handler.py in a third of the runs, "
+        "inside Transport.open_channel (with stalls of up to 0.3 virtual s between statements) in half of the open-session "
+        "runs; after the call a second wave of 2-3 sending calls on the dead transport."
         % (len(CLIENT_APIS + SERVER_APIS), LOSSES, PHASES, len(CASES)))
 COMPONENTS = {"real": ["victim Transport / ServiceRequestingTransport / Channel / AuthHandler unmodified",
                        "peer: real Transport whose packetizer can be told to swallow incoming messages"],
